@@ -11,4 +11,4 @@ META = {
 
 
 def TASKS(tier):
-    return count_window_tasks(tier, 'count_window')
+    return count_window_tasks(tier, 'count_window') + window_op_tasks(tier, 'window_operator', ('count',))
